@@ -102,30 +102,43 @@ PROPS = {
                                         "EliasFano::{get,predecessor,len,build} contracts (C03)"],
         "assumptions": ["offset < usize::MAX for to_line_column (for offset == usize::MAX and a line start of 0 the naive column "
                         "offset - start + 1 is not representable)",
-                        "EliasFano::{build,get,predecessor,len} contracts are those of C03 (cursor/get proved inductively with bounded data; build not proved)"],
+                        "EliasFano::{get,predecessor,len} contracts are those proved in unit c03_ef; EliasFano::build (encoding == input) is not proved (bounded evidence)"],
     },
     "C03": {
         "level": "proof",
-        "explanation": "History-quantified part: for the cursor, Kani proves the inductive step -- from ANY cursor state satisfying the stated "
-                       "invariant (positioned on element idx with a consistent remaining-bits cache, or exhausted), each of advance_one, "
-                       "advance_by(k) for every k: usize, seek(j), and the constructors cursor()/cursor_from(j) returns the element the same "
-                       "operation reaches on the plain sequence, reports index == min(target, len) and re-establishes the invariant; every finite "
-                       "interleaving follows by induction on its length. The data is bounded (4 symbolic 64-bit words of high bits, no low bits); "
-                       "get/predecessor/read_low_bits/build have their own obligations (see samples).",
-        "trusted_base": COMMON_TRUST + ["select_in_word / block_popcount replaced by their proved contracts (C02) inside the cursor harnesses"],
-        "assumptions": ["data bound: high-bit bitmaps of 4 words (256 bits); low bits handled separately by the read_low_bits contract",
-                        "EliasFano::build: bounded evidence only"],
+        "explanation": "Verus proves on the extracted text of the real functions, for encodings of every length: EliasFano::select1 "
+                       "(sampled start, masked first word, block-skipping scan; the `expect`s cannot fire), read_low_bits (field i of the "
+                       "packed low bits, one word or spanning two), get (None iff i >= len, else the element the encoding denotes), "
+                       "predecessor (None iff every element exceeds v, else the LAST index of the largest element <= v), len/is_empty/universe, "
+                       "and the cursor: cursor(), cursor_from(i), current, index, is_exhausted, seek(i) from ANY state, and advance_one / "
+                       "advance_by(k) for EVERY k: usize from every cursor state satisfying the representation invariant (parked on the idx-th "
+                       "one with the word cache equal to that word's bits at and after it, or exhausted). Each operation re-establishes the "
+                       "invariant, reports index == min(target, len) and the plain sequence's element there, so every finite interleaving "
+                       "follows by induction on its length. Kani re-proves the same inductive steps on 2-4 word bitmaps (counterexamples "
+                       "replay natively). EliasFano::build (encoding == input) is NOT proved: bounded Kani evidence only.",
+        "trusted_base": COMMON_TRUST + ["Verus 0.2026.09.13 + Z3; vstd specs of u64::trailing_zeros / wrapping_sub / usize::saturating_add",
+                                        "seam R4: scan_select contract (unit c01_scan), select_in_word contract (Kani, C02)"],
+        "assumptions": ["representation invariant ef_wf of the encoding (samples are select positions; total ones == len; low_width <= 32; "
+                        "packed low bits long enough) and sortedness of the decoded sequence (for predecessor) are assumed of callers: "
+                        "EliasFano::build, which establishes them, has bounded evidence only",
+                        "usize is 64 bits"],
     },
     "C13": {
-        "level": "other",
-        "explanation": "bounded + complete pieces: (complete) encode_code_point/decode_code_point round-trip for every u32 and every 4-byte "
-                       "window; line_and_column's SWAR newline counter against the naive count; (bounded) validate_utf8_scalar against the "
-                       "Unicode Table 3-7 definition for all inputs of length <= 5 (verdict, kind, line/column, offset); the AVX2 and broadword "
-                       "acceptors against the definition on inputs whose symbolic bytes sit on 8/32-byte block boundaries and at the end of "
-                       "exact-multiple and partial tail blocks (engine == scalar result follows because both wrappers defer to the scalar "
-                       "validator whenever their acceptor says no). No unbounded proof of the validators' loops was obtained.",
-        "trusted_base": COMMON_TRUST + [MODELS + "_mm256_max_epu8, _mm256_testz_si256"],
-        "assumptions": ["bounded: see coverage.bounded for the exact input shapes", "the is_x86_feature_detected! wrapper validate_utf8_simd is not executed by Kani (cpuid)"],
+        "level": "proof",
+        "explanation": "Verus proves on the extracted text, for byte strings of every length: validate_utf8_scalar against the Unicode "
+                       "Table 3-7 definition (Ok iff well-formed; on rejection the error kind and the offset, relative to the longest "
+                       "well-formed prefix), and the broadword engine's accept scan: validate_sequence == the Table 3-7 sequence length and "
+                       "accepts(input) == well_formed(input), so validate_utf8_broadword (accepts ? Ok : scalar) returns exactly the scalar "
+                       "result. Kani proves completely: encode_code_point/decode_code_point round-trip for every u32 and every 4-byte window, "
+                       "line_and_column's SWAR newline counter against the naive count, first_high_byte for all 2^64 masks. The AVX2 accept "
+                       "kernel (lookup-table classifier carried across 32-byte blocks) is NOT proved: bounded Kani evidence on inputs whose "
+                       "symbolic bytes sit on block boundaries and tails; its wrapper also defers to the scalar validator on rejection. "
+                       "The offset convention of the scalar validator differs from the property's wording for one class of inputs: recorded finding F6.",
+        "trusted_base": COMMON_TRUST + [MODELS + "_mm256_max_epu8, _mm256_testz_si256", "Verus 0.2026.09.13 + Z3",
+                                        "seam R4: skip_ascii / err_at / load_word / load_block stubs (Kani-checked contracts, see units c13_scalar, c13_broadword)"],
+        "assumptions": ["AVX2 acceptor soundness: bounded only (coverage.bounded lists the shapes)",
+                        "the is_x86_feature_detected! wrapper validate_utf8_simd is not executed by Kani (cpuid)",
+                        "little-endian target; usize is 64 bits"],
     },
     "C09": {
         "level": "proof",
@@ -177,14 +190,23 @@ PROPS = {
                         "excess(p): len < 2^30 (beyond that the i32 result cannot hold 2*rank1)"],
     },
     "C21": {
-        "level": "other",
-        "explanation": "bounded: Kani executes the real scalar index builder and the real row/field iterators, DsvRow::get and row(n) on "
-                       "every text of length 4 over {delimiter, quote, newline, 'a'} for every configuration with distinct special bytes and "
-                       "compares with the quote-aware split the property defines; texts ending in an unquoted delimiter are the recorded "
-                       "finding F1 and are checked by a separate obligation that is expected to fail. The marker/newline rank-select layer "
-                       "is the index_lightweight code (same shapes as C07, not separately proved here).",
-        "trusted_base": COMMON_TRUST,
-        "assumptions": ["texts of length 4 (3 for the known-finding obligation); index built by the scalar builder (C20 relates the SIMD builders to it)"],
+        "level": "proof",
+        "explanation": "Verus proves on the extracted text of the real functions, for texts of every length: the index layer "
+                       "(DsvIndexLightweight build_rank, markers/newlines rank1 and select1, row_count, the private CTZ select_in_word) against "
+                       "the bit-level rank/select definitions, and on top of those contracts the whole navigation layer: "
+                       "DsvCursor::{next_field,next_row,goto_row,current_field,at_newline}, DsvRow::{fields,get}, DsvRows::next and "
+                       "DsvFields::next. The specification is the split the marker/newline bit-sets define (rows end at newline markers and a "
+                       "final newline starts no row; fields end at markers; every field including empty ones is its raw byte range); "
+                       "iteration yields exactly that sequence from every reachable iterator state, get(column) is its column-th entry and "
+                       "goto_row(n) its n-th row start, so random access agrees with iteration. That the bit-sets are exactly the unquoted "
+                       "delimiters/newlines of the text is C20. Texts that end with a delimiter and no record separator are the recorded "
+                       "finding F1: they are excluded from the Verus contracts by the precondition no_f1 and checked against the property by a "
+                       "concrete Kani obligation that is expected to fail.",
+        "trusted_base": COMMON_TRUST + ["Verus 0.2026.09.13 + Z3; vstd specs of slices/Option/u64::trailing_zeros; slice::partition_point stub with its documented contract",
+                                        "seam R4 between unit c21_index (proved) and the stubs of unit c21_cursor"],
+        "assumptions": ["index invariant assumed of callers (rank arrays built by build_rank over the same words, text_len == text.len(), "
+                        "tail bits clear, every newline bit is a marker bit, < 2^32 markers)",
+                        "Dsv/DsvRef::row and rows() wrappers (two-line compositions of goto_row / DsvRows::new) are not extracted"],
     },
 }
 FIX_COMMITS = ["2cec8d3", "1d237d0", "a3cef7a", "5751290"]
